@@ -290,6 +290,7 @@ class World:
         self.csys_by_obj = {}
         self.fav = None
         self.accessor_results = set()
+        self.last_derived = None
         self.verdicts = []      # (verdict operation, object) pairs issued so far
         self.recent_atol = 0
 
@@ -567,7 +568,7 @@ def _var_meta(o, W):
 QOPS = ("state", "povm", "gate", "mprocess")
 # operations that re-configure re-used service objects: role -> operand position
 STATEFUL = {"estimate": {"est": 0, "loss": 3, "lopt": 4, "algo": 5, "aopt": 6}, "loss_eval": {"loss": 0, "lopt": 2},
-            "loss_repeat": {"loss": 0, "lopt": 2},
+            "loss_repeat": {"loss": 0, "lopt": 2}, "loss_buffer": {"loss": 0, "lopt": 2},
             "algo_proj": {"algo": 0, "aopt": 2}}
 # unary operations on q-operations: name -> (kinds, fn(o, p), result role)
 UNARY = {
@@ -762,8 +763,22 @@ def run_op(op, get, W, atol_state):
     if k == "loss_eval":
         loss, qt, lopt, data = get(a[0]), get(a[1]), get(a[2]), get(a[3])
         loss.set_from_standard_qtomography_option_data(qt, lopt, data, True, False)
-        var = np.array(p["var"][:qt.num_variables], dtype=np.float64)
+        # the caller's own buffer when the pool has one of this size (the same ndarray object over many evaluations)
+        var = get(a[4]) if len(a) > 4 else np.array(p["var"][:qt.num_variables], dtype=np.float64)
         return [loss.value(var), loss.gradient(var)]
+    if k == "loss_buffer":
+        # evaluate, overwrite the caller's buffer in place with other values, evaluate again: the second answers are those
+        # of a loss object configured now and evaluated once on an equal-valued array
+        loss, qt, lopt, data = get(a[0]), get(a[1]), get(a[2]), get(a[3])
+        loss.set_from_standard_qtomography_option_data(qt, lopt, data, True, False)
+        var = np.array(p["var"][:qt.num_variables], dtype=np.float64)
+        loss.value(var); loss.gradient(var)
+        var[:] = np.array(p["var"][qt.num_variables:2 * qt.num_variables], dtype=np.float64)
+        second = [loss.value(var), loss.gradient(var)]
+        ref = type(loss)()
+        ref.set_from_standard_qtomography_option_data(qt, lopt, data, True, False)
+        v2 = np.array(var, copy=True)
+        return Repeat(second, [ref.value(v2), ref.gradient(v2)])
     if k == "algo_proj":
         algo, qt, aopt = get(a[0]), get(a[1]), get(a[2])
         algo.set_from_option(aopt)
@@ -887,6 +902,9 @@ def init_specs(g, tier_quick):
         if j == 2:
             pv = pv * (1 - 1e-10); pv[int(g.integers(0, m))] += 1e-10
         add(f"prob{j}", "array", {"value": pv, "role": "prob"})
+    # variable buffers a caller keeps and re-uses for loss evaluations (one per number of variables)
+    for nv in (3, 4, 8, 12, 16):
+        add(f"lv{nv}", "array", {"value": np.round(g.uniform(-0.6, 0.6, nv) * 1024) / 1024, "role": "lossvar"})
     # matrix bases that are orthonormal only approximately: the verdicts depend on the global tolerance
     for j, sparse_ in enumerate([False, True]):
         add(f"basis{j}", "basis", {"dim": 2, "sparse": sparse_, "tilt": float(g.choice([3e-5, 3e-8, 3e-10])),
@@ -994,6 +1012,14 @@ def gen_op(rng, W, step, atol_changed):
         if prev and rng.random() < 0.7:
             name, eid = rng.choice(prev)
             return {"op": name, "args": [eid], "p": p}
+    if W.last_derived is not None and W.last_derived in e and rng.random() < 0.3:
+        # objects derived via copy / generate_* / operators are used right away: a projection, conversion or query on them
+        d = W.last_derived
+        W.last_derived = None
+        names = sorted(n for n in UNARY if e[d].kind in UNARY[n][0])
+        pref = [n for n in names if n.startswith(("calc_proj", "func_calc_proj", "to_", "mp_to", "is_", "generate_"))]
+        if names:
+            return {"op": rng.choice(pref or names), "args": [d], "p": p}
     if r < 0.08:
         name = rng.choice(VERDICTS)
         cands = [i for k in UNARY[name][0] for i in by.get(k, [])]
@@ -1116,10 +1142,14 @@ def gen_op(rng, W, step, atol_changed):
     if x < 0.40:
         lcls = W.fav if rng.random() < 0.75 else rng.choice(sorted(LOSSES))
         mode = rng.choice(LOSSES[lcls][2])
-        if rng.random() < 0.35:
-            return {"op": "loss_repeat", "args": [f"loss_{lcls}", qt, _lopt_id(lcls, mode, qt), rng.choice(datas)],
+        y = rng.random()
+        if y < 0.35:
+            return {"op": rng.choice(["loss_repeat", "loss_repeat", "loss_buffer"]),
+                    "args": [f"loss_{lcls}", qt, _lopt_id(lcls, mode, qt), rng.choice(datas)],
                     "p": {"var": var, "mode": mode, "lcls": lcls}}
-        return {"op": "loss_eval", "args": [f"loss_{lcls}", qt, _lopt_id(lcls, mode, qt), rng.choice(datas)],
+        nv = e[qt].obj.num_variables
+        buf = [f"lv{nv}"] if f"lv{nv}" in e and y < 0.8 else []
+        return {"op": "loss_eval", "args": [f"loss_{lcls}", qt, _lopt_id(lcls, mode, qt), rng.choice(datas)] + buf,
                 "p": {"var": var, "mode": mode, "lcls": lcls}}
     if x < 0.55:
         return {"op": "algo_proj", "args": [rng.choice(by["algo"]), qt, rng.choice(by["aopt"])], "p": {"var": var}}
@@ -1232,6 +1262,8 @@ def _exec_history(S, ops, gen, nops, stop_on_first, subst, on_case):
                     W.add(rid, rk, rs)
                     if op["op"] == "ensemble_state":
                         W.accessor_results.add(rid)
+                    elif rk in QOPS:
+                        W.last_derived = rid
                 elif isinstance(rs, np.ndarray) and op["op"] in UNARY and len(UNARY[op["op"]]) > 2:
                     W.add(rid, "array", rs, _var_meta(W.e[args[0]].obj, W))
                 elif isinstance(rs, np.ndarray) and op["op"] in ("proj_eq_with_var", "proj_ineq_with_var"):
@@ -1291,12 +1323,12 @@ def signature(S, ran, prob, W):
             detail = f"/{kinds_of(op, W)}"
         return f"C13/mutation/{name}{detail}/{role}:{prim[1]}"
     # result differs from the fresh evaluation
-    if name in ("estimate", "loss_eval", "loss_repeat", "algo_proj"):
+    if name in ("estimate", "loss_eval", "loss_repeat", "loss_buffer", "algo_proj"):
         carriers = prob.get("carriers", [])
         a = op["args"]
         pos = STATEFUL[name]
-        prev = [o for o in ran[:-1] if o["op"] in ("estimate", "loss_eval", "loss_repeat", "algo_proj")]
-        if "loss" in carriers or (not carriers and name in ("loss_eval", "loss_repeat")):
+        prev = [o for o in ran[:-1] if o["op"] in ("estimate", "loss_eval", "loss_repeat", "loss_buffer", "algo_proj")]
+        if "loss" in carriers or (not carriers and name in ("loss_eval", "loss_repeat", "loss_buffer")):
             lid = a[pos["loss"]]
             cls = type(W.e[lid].obj).__name__
             pm = [o["p"].get("mode") for o in prev if lid in o["args"]]
@@ -1405,7 +1437,8 @@ def describe(prob, W):
         return (f"{op['op']}({kinds_of(op, W)}) after the history: {prob['shared']}  vs on fresh equal-valued "
                 f"arguments: {prob['fresh']}")
     if prob["kind"] == "repeat":
-        return (f"{op['op']}({kinds_of(op, W)}): gradient/value evaluated twice on one configured loss object: "
+        return (f"{op['op']}({kinds_of(op, W)}): value/gradient of one configured loss object, evaluated again (loss_repeat: "
+                f"same calls; loss_buffer: after the caller overwrote its variable buffer, vs a new loss object): "
                 f"{prob['first']}  then {prob['second']}")
     if prob["kind"] == "mutation":
         return f"{op['op']}({kinds_of(op, W)}) changed {[(e, k, 'operand' if o else 'other') for e, k, o in prob['changed']]}"
@@ -1694,6 +1727,60 @@ def estimator_reuse_clause(ctx):
                     break
 
 
+def tolerance_clause(ctx):
+    """verdict queries of one object at the default tolerance, inside a `Settings.set_atol` window and after its
+    restoration: every answer equals that of a freshly constructed equal-valued object asked at that moment.  The objects
+    violate their constraints by amounts that lie between the tolerances."""
+    g = ctx.npgen("tolerance")
+    c = qobj.csys("qubit")
+    rho = qobj.rand_density(g, 2, rank=1)
+    u = qobj.rand_unitary(g, 2)
+    pure_gate = qobj.hs_of_kraus(c, [u])
+    proj = [u @ np.diag([1.0, 0]) @ u.conj().T, u @ np.diag([0, 1.0]) @ u.conj().T]
+    mp_hss = [qobj.hs_of_kraus(c, [pr]) for pr in proj]
+    queries = {"State": ["is_physical", "is_eq_constraint_satisfied", "is_ineq_constraint_satisfied", "is_trace_one",
+                         "is_hermitian", "is_positive_semidefinite"],
+               "Povm": ["is_physical", "is_eq_constraint_satisfied", "is_ineq_constraint_satisfied", "is_identity_sum",
+                        "is_positive_semidefinite"],
+               "Gate": ["is_physical", "is_eq_constraint_satisfied", "is_ineq_constraint_satisfied", "is_tp", "is_cp"],
+               "MProcess": ["is_physical", "is_eq_constraint_satisfied", "is_ineq_constraint_satisfied", "is_sum_tp", "is_cp"]}
+    for delta, loose in ((3e-5, 1e-3), (3e-8, 1e-6), (3e-11, 1e-9)):
+        # boundary objects pushed outside by delta: a negative eigenvalue and an equality defect of that size
+        bad_rho = u @ np.diag([1 + delta, -delta]) @ u.conj().T * (1 + delta)
+        vs = [qobj.vec_of(c, proj[0] + delta * proj[1]), qobj.vec_of(c, proj[1] * (1 + delta) - 2 * delta * proj[0])]
+        hs = pure_gate.copy(); hs[0, 1] += delta; hs[1:, 1:] *= (1 + delta)
+        mh = [h.copy() for h in mp_hss]; mh[0][0, 1] += delta; mh[1][1:, 1:] *= (1 + delta)
+        makers = {"State": lambda: State(c, qobj.vec_of(c, bad_rho), is_physicality_required=False),
+                  "Povm": lambda: Povm(c, [v.copy() for v in vs], is_physicality_required=False),
+                  "Gate": lambda: Gate(c, hs.copy(), is_physicality_required=False),
+                  "MProcess": lambda: MProcess(c, [h.copy() for h in mh], is_physicality_required=False)}
+        for name, mk in makers.items():
+            for first_loose in (False, True):
+                Settings.set_atol(ATOL0)
+                used = mk()
+                plan = [ATOL0, loose, ATOL0, loose] if not first_loose else [loose, ATOL0, loose, ATOL0]
+                bad = None
+                try:
+                    for step, at in enumerate(plan):
+                        Settings.set_atol(at)
+                        fresh = mk()
+                        for qn in queries[name]:
+                            a, b = getattr(used, qn)(), getattr(fresh, qn)()
+                            if bool(a) != bool(b) and bad is None:
+                                bad = (qn, step, at, bool(a), bool(b))
+                finally:
+                    Settings.set_atol(ATOL0)
+                ctx.case(("tolerance", name, delta, first_loose), sample={"clause": "tolerance window", "type": name,
+                                                                          "defect": delta, "loose": loose})
+                ctx.count("tolerance-window verdict sequences")
+                if bad:
+                    qn, step, at, a, b = bad
+                    ctx.violate(f"C13/history/{qn}/{name}/verdict-kept-across-tolerance-change",
+                                f"{name} with a constraint defect of {delta}: tolerances {plan}; at step {step} (atol={at}) "
+                                f"{qn}() of the re-used object is {a}, of a fresh equal object {b}",
+                                {"kind": "tolerance", "type": name, "delta": delta, "loose": loose, "seed": ctx.seed})
+
+
 def inplace_clause(ctx):
     """in-place methods change their own object only: after `derived = o.generate_from_var(o.to_var())`,
     `derived.set_zero()` leaves `o` and the arrays obtained from `o` earlier as they were"""
@@ -1730,6 +1817,7 @@ def oracle(ctx, volume=1):
     experiment_copy_clause(ctx)
     estimator_reuse_clause(ctx)
     inplace_clause(ctx)
+    tolerance_clause(ctx)
     sequence_clause(ctx, volume)
     nhist, nops = ((300, 12) if ctx.quick else (3000, 30))
     workers = 1 if ctx.quick else max(1, min(12, (os.cpu_count() or 2) - 2))
@@ -2043,6 +2131,7 @@ def replay(ctx, data):
     experiment_copy_clause(ctx)
     estimator_reuse_clause(ctx)
     inplace_clause(ctx)
+    tolerance_clause(ctx)
     for v in ctx.violations[before:]:
         print("  PROBLEM:", v["signature"], v["what"])
     return 1 if any(v["signature"] == data.get("signature") for v in ctx.violations[before:]) else 0
